@@ -125,11 +125,11 @@ def main():
                 'repository_unit_tests_against_patched_tree': v['tree_unittests'],
                 'how': 'tools/seeded.py verify: scratch copy of /repo under /var/tmp, demo run, git apply, demo run, pytest (pinned command), unittest with PYTHONPATH=./rbql-py',
             },
-            'checks_run': {k: {'exit': c['exit'], 'caught': c['exit'] == 1, 'first_mechanism': (c['mechanisms'][0] if c['mechanisms'] else None)} for k, c in checks.items()},
+            'checks_run': {k: {'exit': c['exit'], 'caught': c['exit'] == 1 and bool(c['mechanisms']), 'first_mechanism': (c['mechanisms'][0] if c['mechanisms'] else None)} for k, c in checks.items()},
         }
         with open(os.path.join(dst, 'meta.json'), 'w') as f:
             json.dump(meta, f, indent=1)
-        print(name, {k: c['exit'] for k, c in checks.items()})
+        print(name, {k: (c['exit'] if (c['exit'] != 1 or c['mechanisms']) else 'exit-1-without-violation-line') for k, c in checks.items()})
     elif cmd == 'recheck-all':
         # every kept change against the current checks and the current /repo: the check of its own property must still exit 1
         from concurrent.futures import ThreadPoolExecutor
@@ -155,7 +155,7 @@ def main():
                 if a.returncode != 0:
                     return (name, 'PATCH-DOES-NOT-APPLY', a.stdout.strip()[-200:])
                 r = run_checks(name, [prop], d)[prop]
-                return (name, 'caught' if r['exit'] == 1 else 'NOT-CAUGHT exit=%s' % r['exit'], (r['mechanisms'] or [''])[0][:120])
+                return (name, 'caught' if (r['exit'] == 1 and r['mechanisms']) else 'NOT-CAUGHT exit=%s' % r['exit'], (r['mechanisms'] or [''])[0][:120])
             finally:
                 shutil.rmtree(d, ignore_errors=True)
         bad = 0
